@@ -9,6 +9,8 @@ def build(ctx):
     E.obligations_table_distinct(ctx, 'C01')
     common.encoder_tasks(ctx, lambda m: not m.startswith('c.'))
     ctx.task('contracts.emit:task_emit_pass', 'resolve_instructions')
+    # the operands the source named reach the encoder: immediates are their expression's value, register aliases their constant's
+    common.pass_tasks(ctx, ['resolve_immediates', 'resolve_register_aliases'])
     ctx.trust(common.TRUST_BOUNDED)
 
 
